@@ -1,8 +1,13 @@
 (* Model/Validate.v — validate.valid_instance / validate_value_type / valid over
    the schema table rows of Model/Schema.v, with the five verify() overrides of
-   saml.py.  Primitive lexical validators are the parameter [prim : key -> value
-   -> bool] (false = the validator raises NotValid); boolean / string and the
-   always-true ones are defined in Gallina below.  Definitions only. *)
+   saml.py.  The model follows validate.py WITH the repairs proposed_fix/C13-1..3
+   (type-name resolution, enumerations whatever the base, valid_domain_name); the
+   code as it was before them is kept as the *_before_fix definitions.
+   Primitive lexical validators are the parameter [prim : key -> value -> bool]
+   (false = the validator raises NotValid); the ones that are plain lexical rules
+   (boolean, string kinds, integer kinds, name tokens, language, domain name) are
+   defined in Gallina below, the rest (dateTime, duration, base64Binary, anyURI,
+   IP address) come from a sample table.  Definitions only. *)
 From PV Require Import Lib.Base Model.Schema.
 Open Scope N_scope.
 
@@ -34,9 +39,30 @@ Fixpoint split_on (sep : N) (s : str) : list str :=
   | c :: s' => if c =? sep then [] :: split_on sep s'
                else match split_on sep s' with h :: t => (c :: h) :: t | [] => [[c]] end
   end.
+(* typ.rsplit(":", 1)[-1] : what follows the last colon *)
+Definition local_name (typ : str) : str := last (split_on 58 typ) [].
 
-(* ---- valid(typ, value): VALIDATOR[typ], else strip one "ns:" prefix / "" -> string *)
+(* ---- validator_of(typ) (C13-1): no type -> string; VALIDATOR[typ]; VALIDATOR[local
+   name]; the first key equal to the local name up to case; else string.  None = the
+   KeyError of VALIDATOR["string"] when that key does not exist. *)
+Definition find_ci (keys : list str) (low : str) : option str :=
+  find (fun k => str_eqb (lower_ascii k) low) keys.
 Definition resolve (keys : list str) (typ : str) : option str :=
+  let fallback := if mem_str T_STRING keys then Some T_STRING else None in
+  match typ with
+  | [] => fallback
+  | _ =>
+      if mem_str typ keys then Some typ
+      else let loc := local_name typ in
+           if mem_str loc keys then Some loc
+           else match find_ci keys (lower_ascii loc) with
+                | Some k => Some k
+                | None => fallback
+                end
+  end.
+
+(* valid() before C13-1: VALIDATOR[typ], else strip exactly one "ns:" prefix / "" -> string *)
+Definition resolve_before_fix (keys : list str) (typ : str) : option str :=
   if mem_str typ keys then Some typ
   else
     let typ' := match split_on 58 typ with
@@ -44,6 +70,69 @@ Definition resolve (keys : list str) (typ : str) : option str :=
                 | _ => match typ with [] => T_STRING | _ => typ end
                 end in
     if mem_str typ' keys then Some typ' else None.
+
+(* ---- a small regular-expression matcher (Brzozowski derivatives) for the two
+   patterns validate.py matches against whole values *)
+Inductive re := RNone | REps | RCls (ranges : list (N * N)) | RSeq (a b : re) | RAlt (a b : re) | RStar (a : re).
+Fixpoint nullable (r : re) : bool :=
+  match r with
+  | RNone => false | REps => true | RCls _ => false
+  | RSeq a b => nullable a && nullable b
+  | RAlt a b => nullable a || nullable b
+  | RStar _ => true
+  end.
+Definition rseq (a b : re) : re :=
+  match a, b with
+  | RNone, _ => RNone | _, RNone => RNone
+  | REps, _ => b | _, REps => a
+  | _, _ => RSeq a b
+  end.
+Definition ralt (a b : re) : re :=
+  match a, b with
+  | RNone, _ => b | _, RNone => a
+  | _, _ => RAlt a b
+  end.
+Fixpoint deriv (c : N) (r : re) : re :=
+  match r with
+  | RNone | REps => RNone
+  | RCls rs => if existsb (fun p => (fst p <=? c) && (c <=? snd p)) rs then REps else RNone
+  | RSeq a b => ralt (rseq (deriv c a) b) (if nullable a then deriv c b else RNone)
+  | RAlt a b => ralt (deriv c a) (deriv c b)
+  | RStar a => rseq (deriv c a) (RStar a)
+  end.
+Fixpoint re_match (r : re) (s : str) : bool :=
+  match s with [] => nullable r | c :: s' => re_match (deriv c r) s' end.
+Definition rplus (a : re) : re := RSeq a (RStar a).
+Definition ropt (a : re) : re := RAlt REps a.
+Fixpoint rupto (n : nat) (a : re) : re := match n with O => REps | S n' => ropt (RSeq a (rupto n' a)) end.
+Fixpoint rrep (n : nat) (a : re) : re := match n with O => REps | S n' => RSeq a (rrep n' a) end.
+Definition rrange (m n : nat) (a : re) : re := RSeq (rrep m a) (rupto (n - m) a).
+Definition rchar (c : N) : re := RCls [(c, c)].
+Fixpoint rlit (s : str) : re := match s with [] => REps | c :: s' => RSeq (rchar c) (rlit s') end.
+Definition C_ALPHA : list (N * N) := [(97, 122); (65, 90)].
+Definition C_DIGIT : list (N * N) := [(48, 57)].
+Definition C_ALNUM : list (N * N) := C_ALPHA ++ C_DIGIT.
+Definition C_SEP : list (N * N) := [(45, 46)].                    (* [-.] *)
+Definition C_DOT : list (N * N) := [(0, 9); (11, 1114111)].       (* . : anything but a newline *)
+(* valid_domain_name (C13-3):  ^[a-zA-Z0-9]+([-.][a-zA-Z0-9]+)*(:[0-9]{1,5})?\Z *)
+Definition R_DOMAIN : re :=
+  RSeq (rplus (RCls C_ALNUM))
+       (RSeq (RStar (RSeq (RCls C_SEP) (rplus (RCls C_ALNUM))))
+             (ropt (RSeq (rchar 58) (rrange 1 5 (RCls C_DIGIT))))).
+(* before: ^[a-z0-9]+([-.]{ 1 }[a-z0-9]+).[a-z]{2,5}(:[0-9]{1,5})?(\/.)?$ with re.I -
+   the braces with blanks are literal text; $ also matches before a final newline *)
+Definition R_DOMAIN_before_fix : re :=
+  RSeq (rplus (RCls C_ALNUM))
+   (RSeq (RSeq (RCls C_SEP) (RSeq (rlit (s2l "{ 1 }")) (rplus (RCls C_ALNUM))))
+    (RSeq (RCls C_DOT)
+     (RSeq (rrange 2 5 (RCls C_ALPHA))
+      (RSeq (ropt (RSeq (rchar 58) (rrange 1 5 (RCls C_DIGIT))))
+       (RSeq (ropt (RSeq (rchar 47) (RCls C_DOT))) (ropt (rchar 10))))))).
+Definition prim_domain (v : str) : bool := re_match R_DOMAIN v.
+Definition prim_domain_before_fix (v : str) : bool := re_match R_DOMAIN_before_fix v.
+(* LANGUAGE = [a-zA-Z]{1,8}(-[a-zA-Z0-9]{1,8})*\Z *)
+Definition R_LANGUAGE : re :=
+  RSeq (rrange 1 8 (RCls C_ALPHA)) (RStar (RSeq (rchar 45) (rrange 1 8 (RCls C_ALNUM)))).
 
 Section Validate.
   Variable prim : str -> str -> bool.
@@ -63,17 +152,17 @@ Section Validate.
     match v_maxlen vt with
     | Some _ => ok                                       (* returns a bool; nothing is raised *)
     | None =>
-        if str_eqb (v_base vt) T_STRING then
-          match v_enum vt with
-          | Some en => if mem_str value en then ok else Err NOT_VALID
-          | None => if prim T_STRING value then ok else Err NOT_VALID
-          end
-        else if str_eqb (v_base vt) T_LIST then
-          match v_member vt with
-          | None => Err KEY_ERROR
-          | Some mt => first_err (map (fun v => valid mt (strip v)) (split_on 44 value))
-          end
-        else valid (v_base vt) value
+        match v_enum vt with
+        | Some en => if mem_str value en then ok else Err NOT_VALID      (* C13-2: whatever the base *)
+        | None =>
+            if str_eqb (v_base vt) T_STRING then (if prim T_STRING value then ok else Err NOT_VALID)
+            else if str_eqb (v_base vt) T_LIST then
+              match v_member vt with
+              | None => Err KEY_ERROR
+              | Some mt => first_err (map (fun v => valid mt (strip v)) (split_on 44 value))
+              end
+            else valid (v_base vt) value
+        end
     end.
 
   Definition DEFAULT_SPEC : vtype := VT T_STRING None None None.
@@ -101,7 +190,7 @@ Section Validate.
                            | None => Err MODEL_DOMAIN
                            end
                | TN typ => valid typ v
-               | TNone => Err ATTRIBUTE_ERROR          (* None.split *)
+               | TNone => valid [] v                     (* `if not typ` *)
                end
          | _ => ok
          end.
@@ -146,7 +235,7 @@ Section Validate.
     first_err (text_check r text :: map (attr_check attrs) (k_attrs r) ++ map (child_check r vkids) (k_children r)).
 
   (* what an overriding verify() does before it calls SamlBase.verify;
-     None = it returns without calling it (AttributeValueBase with no text) *)
+     PreStop = it returns without calling it (AttributeValueBase with no text) *)
   Inductive pre := PreOk | PreStop | PreErr (e : str).
   Definition has_kid (vkids : list (N * result unit)) (m : N) : bool :=
     match kids_of m vkids with [] => false | _ => true end.
@@ -221,17 +310,198 @@ Section Validate.
         | Some r => vi_node r attrs text (map (fun p => let '(m, k) := p in (m, verify k)) kids)
         end
     end.
+
+  (* ---- the code before C13-1 / C13-2 (history; see the _before_fix_refuted theorems) *)
+  Definition valid_before_fix (typ value : str) : result unit :=
+    match resolve_before_fix keys typ with
+    | None => Err KEY_ERROR
+    | Some k => if prim k value then ok else Err NOT_VALID
+    end.
+  Definition validate_value_type_before_fix (value : str) (vt : vtype) : result unit :=
+    match v_maxlen vt with
+    | Some _ => ok
+    | None =>
+        if str_eqb (v_base vt) T_STRING then
+          match v_enum vt with
+          | Some en => if mem_str value en then ok else Err NOT_VALID
+          | None => if prim T_STRING value then ok else Err NOT_VALID
+          end
+        else if str_eqb (v_base vt) T_LIST then
+          match v_member vt with
+          | None => Err KEY_ERROR
+          | Some mt => first_err (map (fun v => valid_before_fix mt (strip v)) (split_on 44 value))
+          end
+        else valid_before_fix (v_base vt) value
+    end.
+
+  (* ---- the statement's two sides as executable predicates (sound for the Prop
+     versions in Proofs/Validate_lemmas.v: violatedb_sound, goodb_sound) *)
+  Definition value_badb (v : str) (vt : vtype) : bool :=
+    match v_maxlen vt with
+    | Some _ => false
+    | None =>
+        match v_enum vt with
+        | Some en => negb (mem_str v en)
+        | None =>
+            if str_eqb (v_base vt) T_STRING then negb (prim T_STRING v)
+            else if str_eqb (v_base vt) T_LIST then
+              match v_member vt with
+              | Some mt => match resolve keys mt with
+                           | Some k => existsb (fun part => negb (prim k (strip part))) (split_on 44 v)
+                           | None => false end
+              | None => false
+              end
+            else match resolve keys (v_base vt) with Some k => negb (prim k v) | None => false end
+        end
+    end.
+  Definition value_goodb (v : str) (vt : vtype) : bool :=
+    match v_maxlen vt with
+    | Some _ => true
+    | None =>
+        match v_enum vt with
+        | Some en => mem_str v en
+        | None =>
+            if str_eqb (v_base vt) T_STRING then prim T_STRING v
+            else if str_eqb (v_base vt) T_LIST then
+              match v_member vt with
+              | Some mt => match resolve keys mt with
+                           | Some k => forallb (fun part => prim k (strip part)) (split_on 44 v)
+                           | None => false end
+              | None => false
+              end
+            else match resolve keys (v_base vt) with Some k => prim k v | None => false end
+        end
+    end.
+  Definition attr_vtype (a : attr_row) : option (option vtype) :=      (* Some None = a type name *)
+    match a_type a with
+    | TC cls => match find_row S cls with
+                | Some rt => Some (Some (match k_vtype rt with Some vt => vt | None => DEFAULT_SPEC end))
+                | None => None end
+    | _ => Some None
+    end.
+  Definition attr_tname (a : attr_row) : str := match a_type a with TN t => t | _ => [] end.
+  Definition typed_badb (a : attr_row) (v : str) : bool :=
+    match attr_vtype a with
+    | Some (Some vt) => value_badb v vt
+    | Some None => match resolve keys (attr_tname a) with Some k => negb (prim k v) | None => false end
+    | None => false
+    end.
+  Definition typed_goodb (a : attr_row) (v : str) : bool :=
+    match attr_vtype a with
+    | Some (Some vt) => value_goodb v vt
+    | Some None => match resolve keys (attr_tname a) with Some k => prim k v | None => false end
+    | None => false
+    end.
+  Definition attr_badb (attrs : list (N * str)) (a : attr_row) : bool :=
+    (a_req a && negb (truthy (alookup (a_member a) attrs))) ||
+    match alookup (a_member a) attrs with Some (c0 :: v') => typed_badb a (c0 :: v') | _ => false end.
+  Definition attr_goodb (attrs : list (N * str)) (a : attr_row) : bool :=
+    (negb (a_req a) || truthy (alookup (a_member a) attrs)) &&
+    match alookup (a_member a) attrs with Some (c0 :: v') => typed_goodb a (c0 :: v') | _ => true end.
+  Definition text_badb (r : class_row) (text : option str) : bool :=
+    match k_vtype r, text with Some vt, Some (c0 :: t') => value_badb (strip (c0 :: t')) vt | _, _ => false end.
+  Definition text_goodb (r : class_row) (text : option str) : bool :=
+    match k_vtype r, text with Some vt, Some (c0 :: t') => value_goodb (strip (c0 :: t')) vt | _, _ => true end.
+  Definition card_badb (r : class_row) (n : nat) (ch : child_row) : bool :=
+    match alookup (c_member ch) (k_card r) with
+    | Some (mn, mx) =>
+        match n with
+        | O => nonzero mn
+        | _ => match mn with Some m => (Z.of_nat n <? m)%Z | None => false end ||
+               match mx with Some m => (m <? Z.of_nat n)%Z | None => false end
+        end
+    | None => false
+    end.
+  Definition node_violationb (r : class_row) (attrs : list (N * str)) (text : option str) (K : list (N * inst)) : bool :=
+    existsb (attr_badb attrs) (k_attrs r) || text_badb r text ||
+    existsb (fun ch => card_badb r (List.length (kids_of (c_member ch) K)) ch) (k_children r).
+  (* some sub-instance reachable through declared child members violates a constraint *)
+  Fixpoint has_violation (i : inst) : bool :=
+    match i with
+    | INone => false
+    | I c a t K xa xe =>
+        match find_row S c with
+        | None => false
+        | Some r => node_violationb r a t K ||
+                    existsb (fun p => let '(m, k) := p in memN m (child_members r) && has_violation k) K
+        end
+    end.
+  Definition pre_okb (p : pre) : bool := match p with PreErr _ => false | _ => true end.
+  Definition oks (K : list (N * inst)) : list (N * result unit) := map (fun p => let '(m, _) := p in (m, ok)) K.
+  (* every node satisfies its constraints, all types resolve, override conditions hold *)
+  Fixpoint goodb (i : inst) : bool :=
+    match i with
+    | INone => false
+    | I c a t K xa xe =>
+        match find_row S c with
+        | None => false
+        | Some r => forallb (attr_goodb a) (k_attrs r) && text_goodb r t &&
+                    forallb (fun ch => negb (card_badb r (List.length (kids_of (c_member ch) K)) ch)) (k_children r) &&
+                    pre_okb (override_pre r a t (oks K) xa) &&
+                    forallb (fun p => let '(m, k) := p in goodb k) K
+        end
+    end.
 End Validate.
 
 (* ---- primitive validators that are plain lexical rules *)
 Definition xml_char (c : N) : bool :=
   (c =? 9) || (c =? 10) || (c =? 13) || ((32 <=? c) && (c <=? 55295)) || ((57344 <=? c) && (c <=? 65533))
   || ((65536 <=? c) && (c <=? 1114111)).
+Definition prim_string (v : str) : bool := forallb xml_char v.
 Definition prim_boolean (v : str) : bool :=
   mem_str (lower_ascii v) [s2l "true"; s2l "false"; s2l "0"; s2l "1"].
-Definition ALWAYS_TRUE : list str := [s2l "ID"; s2l "NCName"; s2l "QName"; s2l "anyType"; s2l "anyURI"].
+(* int(val): blanks around, a sign, decimal digits with single underscores between them
+   (python also takes non-ASCII digits and blanks: the generators stay away from those) *)
+Fixpoint digits_us (s : str) (acc : Z) (prev_digit : bool) : option Z :=
+  match s with
+  | [] => if prev_digit then Some acc else None
+  | c :: s' => if is_digit c then digits_us s' (acc * 10 + Z.of_N (c - 48))%Z true
+               else if (c =? 95) && prev_digit then digits_us s' acc false
+               else None
+  end.
+Definition parse_int (s : str) : option Z :=
+  match strip s with
+  | 45 :: d => option_map Z.opp (digits_us d 0%Z false)
+  | 43 :: d => digits_us d 0%Z false
+  | d => digits_us d 0%Z false
+  end.
+(* VALIDATOR key -> value space of the integer kind *)
+Definition INT_KINDS : list (str * (option Z * option Z)) :=
+  [(s2l "integer", (None, None));
+   (s2l "nonNegativeInteger", (Some 0, None));
+   (s2l "PositiveInteger", (Some 1, None));
+   (s2l "unsignedShort", (Some 0, Some 65535));
+   (s2l "nonPositiveInteger", (None, Some 0));
+   (s2l "negativeInteger", (None, Some (-1)));
+   (s2l "long", (Some (-9223372036854775808), Some 9223372036854775807));
+   (s2l "int", (Some (-2147483648), Some 2147483647));
+   (s2l "short", (Some (-32768), Some 32767));
+   (s2l "byte", (Some (-128), Some 127));
+   (s2l "unsignedLong", (Some 0, Some 18446744073709551615));
+   (s2l "unsignedInt", (Some 0, Some 4294967295));
+   (s2l "unsignedByte", (Some 0, Some 255))]%Z.
+Fixpoint int_kind (k : str) (l : list (str * (option Z * option Z))) : option (option Z * option Z) :=
+  match l with [] => None | (k', r) :: l' => if str_eqb k k' then Some r else int_kind k l' end.
+Definition in_range (r : option Z * option Z) (z : Z) : bool :=
+  match fst r with Some lo => (lo <=? z)%Z | None => true end &&
+  match snd r with Some hi => (z <=? hi)%Z | None => true end.
+Definition prim_int (r : option Z * option Z) (v : str) : bool :=
+  match parse_int v with Some z => in_range r z | None => false end.
+Definition xml_ws (c : N) : bool := (c =? 32) || (c =? 9) || (c =? 13) || (c =? 10).
+Definition prim_normalized (v : str) : bool :=
+  prim_string v && forallb (fun c => negb ((c =? 9) || (c =? 13) || (c =? 10))) v.
+Fixpoint has_double_space (v : str) : bool :=
+  match v with 32 :: ((32 :: _) as v') => true | _ :: v' => has_double_space v' | [] => false end.
+Definition prim_token (v : str) : bool :=
+  prim_normalized v && negb (match v with 32 :: _ => true | _ => false end)
+  && negb (match rev v with 32 :: _ => true | _ => false end) && negb (has_double_space v).
+Definition prim_nmtoken (v : str) : bool :=
+  prim_string v && negb (match v with [] => true | _ => false end) && forallb (fun c => negb (xml_ws c)) v.
+Definition prim_nmtokens (v : str) : bool := prim_string v && existsb (fun c => negb (xml_ws c)) v.
+Definition prim_language (v : str) : bool := re_match R_LANGUAGE v.
+Definition ALWAYS_TRUE : list str := [s2l "ID"; s2l "NCName"; s2l "QName"; s2l "anyType"].
 (* prim from a table of (key, value) -> verdict for the validators that are not
-   modelled (dateTime, duration, integer kinds, base64Binary, ip address, domain name) *)
+   modelled (dateTime, duration, base64Binary, anyURI, ip address) *)
 Fixpoint tab_lookup (k v : str) (tab : list (str * str * bool)) : option bool :=
   match tab with
   | [] => None
@@ -239,33 +509,76 @@ Fixpoint tab_lookup (k v : str) (tab : list (str * str * bool)) : option bool :=
   end.
 Definition prim_of (tab : list (str * str * bool)) (k v : str) : bool :=
   if str_eqb k (s2l "boolean") then prim_boolean v
-  else if str_eqb k T_STRING then forallb xml_char v
+  else if str_eqb k T_STRING || str_eqb k (s2l "anySimpleType") then prim_string v
   else if mem_str k ALWAYS_TRUE then true
-  else match tab_lookup k v tab with
-       | Some b => b
-       | None => negb (mem_str k [s2l "pv:ipaddress"; s2l "pv:domainname"])   (* arbitrary text is neither *)
+  else match int_kind k INT_KINDS with
+       | Some r => prim_int r v
+       | None =>
+           if str_eqb k (s2l "normalizedString") then prim_normalized v
+           else if str_eqb k (s2l "token") then prim_token v
+           else if str_eqb k (s2l "NMTOKEN") then prim_nmtoken v
+           else if str_eqb k (s2l "NMTOKENS") then prim_nmtokens v
+           else if str_eqb k (s2l "language") then prim_language v
+           else if str_eqb k (s2l "pv:domainname") then prim_domain v
+           else match tab_lookup k v tab with
+                | Some b => b
+                | None => negb (str_eqb k (s2l "pv:ipaddress"))   (* arbitrary text is no address *)
+                end
        end.
+(* the same with valid_domain_name as it was before C13-3 *)
+Definition prim_of_before_fix (tab : list (str * str * bool)) (k v : str) : bool :=
+  if str_eqb k (s2l "pv:domainname") then prim_domain_before_fix v else prim_of tab k v.
 
 (* ---- table obligations *)
-(* (class id, xml attribute name) whose declared type name valid() cannot resolve *)
+(* the simple types XML Schema itself defines (local names, lower case) *)
+Definition XSD_BUILTIN : list str :=
+  map s2l ["string"; "boolean"; "decimal"; "float"; "double"; "duration"; "datetime"; "time"; "date";
+           "gyearmonth"; "gyear"; "gmonthday"; "gday"; "gmonth"; "hexbinary"; "base64binary"; "anyuri";
+           "qname"; "notation"; "normalizedstring"; "token"; "language"; "nmtoken"; "nmtokens"; "name";
+           "ncname"; "id"; "idref"; "idrefs"; "entity"; "entities"; "integer"; "nonpositiveinteger";
+           "negativeinteger"; "long"; "int"; "short"; "byte"; "nonnegativeinteger"; "unsignedlong";
+           "unsignedint"; "unsignedshort"; "unsignedbyte"; "positiveinteger"; "anysimpletype"; "anytype"]%string.
+(* a declared type name resolves, and when it names an XSD built-in type it resolves to
+   the validator of THAT type (equal up to case), not to the string fallback *)
+Definition type_resolves (keys : list str) (t : str) : bool :=
+  match resolve keys t with
+  | None => false
+  | Some k => let low := lower_ascii (local_name t) in
+              if mem_str low XSD_BUILTIN then str_eqb (lower_ascii k) low
+              else str_eqb k T_STRING
+  end.
+(* (class id, xml attribute name) whose declared type name does not resolve that way *)
 Definition unresolved_attr_types (keys : list str) (S : schema) : list (N * N) :=
   flat_map (fun r => flat_map (fun a => match a_type a with
-                                        | TN t => match resolve keys t with Some _ => [] | None => [(k_id r, a_xml a)] end
-                                        | TNone => [(k_id r, a_xml a)]
-                                        | TC _ => [] end) (k_attrs r)) S.
-(* classes whose c_value_type has a base valid() cannot resolve (and no enumeration) *)
+                                        | TN t => if type_resolves keys t then [] else [(k_id r, a_xml a)]
+                                        | TNone => if type_resolves keys [] then [] else [(k_id r, a_xml a)]
+                                        | TC c => match find_row S c with Some _ => [] | None => [(k_id r, a_xml a)] end
+                                        end) (k_attrs r)) S.
+(* classes whose c_value_type has a base (or list member) that does not resolve *)
 Definition unresolved_vtypes (keys : list str) (S : schema) : list N :=
   flat_map (fun r => match k_vtype r with
                      | Some vt => match v_maxlen vt, v_enum vt with
                                   | None, None =>
                                       if str_eqb (v_base vt) T_STRING then []
                                       else if str_eqb (v_base vt) T_LIST then
-                                        match v_member vt with Some m => match resolve keys m with Some _ => [] | None => [k_id r] end | None => [k_id r] end
-                                      else match resolve keys (v_base vt) with Some _ => [] | None => [k_id r] end
+                                        match v_member vt with Some m => if type_resolves keys m then [] else [k_id r] | None => [k_id r] end
+                                      else if type_resolves keys (v_base vt) then [] else [k_id r]
                                   | _, _ => [] end
                      | None => [] end) S.
 (* classes that declare an enumeration validate_value_type never tests *)
 Definition unenforced_enums (S : schema) : list N :=
+  flat_map (fun r => match k_vtype r with
+                     | Some vt => match v_enum vt with
+                                  | Some _ => if is_some (v_maxlen vt) then [k_id r] else []
+                                  | None => [] end
+                     | None => [] end) S.
+(* the same two lists for the code before the repairs *)
+Definition unresolved_attr_types_before_fix (keys : list str) (S : schema) : list (N * N) :=
+  flat_map (fun r => flat_map (fun a => match a_type a with
+                                        | TN t => match resolve_before_fix keys t with Some _ => [] | None => [(k_id r, a_xml a)] end
+                                        | TNone => [(k_id r, a_xml a)]
+                                        | TC _ => [] end) (k_attrs r)) S.
+Definition unenforced_enums_before_fix (S : schema) : list N :=
   flat_map (fun r => match k_vtype r with
                      | Some vt => match v_enum vt with
                                   | Some _ => if str_eqb (v_base vt) T_STRING && negb (is_some (v_maxlen vt)) then [] else [k_id r]
@@ -282,3 +595,10 @@ Definition av_rows_plain (S : schema) : bool :=
                     then match k_attrs r, k_children r with [], [] => true | _, _ => false end else true) S.
 
 Definition show_unit (r : result unit) : val := match r with Ok _ => VB true | Err e => VE e end.
+(* the property says "fails", not with which exception class: accepted / raises
+   (a model-domain refusal stays visible) *)
+Definition RAISES : str := s2l "raises".
+Definition show_unit_coarse (r : result unit) : val :=
+  match r with Ok _ => VB true | Err e => if str_eqb e MODEL_DOMAIN then VE e else VE RAISES end.
+(* 0 = every constraint satisfied (goodb), 1 = a reachable violation, 2 = neither *)
+Definition show_spec (good viol : bool) : val := VZ (if viol then 1 else if good then 0 else 2)%Z.
